@@ -11,7 +11,7 @@ import json
 import math
 import multiprocessing as mp
 
-from harness import common, optrun
+from harness import common, gen_targets, optrun
 from harness.common import Check
 
 META = {
@@ -273,6 +273,7 @@ def describe(v: str) -> list[str]:
 
 def run(ck: Check) -> None:
     ck.coq_props(extra_targets=["exec/RunOpt.vo"])
+    gen_targets.run(ck)          # translator tie: Gallina regenerated from the source + coq/gen/EquivC01.v
     thorough = ck.tier == "thorough"
     ncases = 1500 if thorough else 400
     cases = []
@@ -374,6 +375,7 @@ def run(ck: Check) -> None:
     })
     ck.assumptions += ["binary64 parameters and preconditioner_dtype only", "oracle answers recorded from the implementation's own matrix routines",
                        "steps that raise (failure tolerance exceeded, non-finite factor) are excluded here and covered by C13"]
+    ck.gen_equiv_verdict()
 
 
 def dtype_worker(args):
